@@ -33,6 +33,7 @@ type c19World struct {
 	manySig   []byte   // sum of sigs[k][k%len(msgs)]
 	batchSigs [][]byte
 	batchWant []bool
+	pkBytes   [][]byte // encodings of pks, taken before the storm objects were created
 	ecSks     [2]crypto.PrivateKey
 	ecSigs    [2][][]byte
 	bad       []byte
@@ -60,6 +61,21 @@ func newC19World(r *rand.Rand) *c19World {
 		w.sigs = append(w.sigs, row)
 		p, _ := crypto.BLSGeneratePOP(sk)
 		w.pops = append(w.pops, p)
+	}
+	// The objects used during the storm are FRESH: decoded from bytes (never encoded, never verified
+	// with before) and every other one re-expressed in Jacobian coordinates, so that anything a
+	// read-only operation caches or normalises lazily happens under concurrency
+	for k := range w.pks {
+		enc := w.pks[k].Encode()
+		w.pkBytes = append(w.pkBytes, enc)
+		fresh, err := crypto.DecodePublicKey(BLS, enc)
+		if err != nil {
+			panic(err)
+		}
+		if k%2 == 1 {
+			fresh = jacobianForm(fresh, r)
+		}
+		w.pks[k] = fresh
 	}
 	for mi := range w.msgs {
 		var l []crypto.Signature
@@ -96,7 +112,7 @@ func newC19World(r *rand.Rand) *c19World {
 }
 
 // fingerprint hashes every argument buffer, key encoding and the shared hashers' state.
-func (w *c19World) fingerprint() string {
+func (w *c19World) fingerprint(after bool) string {
 	h := sha256.New()
 	add := func(b []byte) { h.Write([]byte{byte(len(b)), byte(len(b) >> 8)}); h.Write(b) }
 	for _, m := range w.msgs {
@@ -107,7 +123,11 @@ func (w *c19World) fingerprint() string {
 	}
 	for k := range w.sks {
 		add(w.sks[k].Encode())
-		add(w.pks[k].Encode())
+		if after {
+			add(w.pks[k].Encode())
+		} else {
+			add(w.pkBytes[k])
+		}
 		add(w.pops[k])
 		for _, s := range w.sigs[k] {
 			add(s)
@@ -257,14 +277,16 @@ func c19Core(run *mon.Run) {
 			var before string
 			// building the table already calls ComputeHash/Sign/... sequentially; a hasher corrupted by a
 			// read-only operation shows here (e.g. x/crypto panics on Write after Read)
-			if run.Guard("sequential-table", map[string]any{"goroutines": G}, func() { w = newC19World(r0); before = w.fingerprint() }) {
+			if run.Guard("sequential-table", map[string]any{"goroutines": G}, func() { w = newC19World(r0); before = w.fingerprint(false) }) {
 				return
 			}
-			// sequential pass: every operation agrees with the table when run alone
+			// sequential pass on a twin world (same seed, separate objects): every operation agrees with
+			// the table when run alone; the storm's own objects stay untouched until the storm
 			local := [2]hash.Hasher{hash.NewSHA3_256(), hash.NewSHA2_256()}
+			twin := newC19World(run.Rand(fmt.Sprintf("world-%d-%d", rep, G)))
 			for op := range c19Ops {
 				for j := 0; j < 3; j++ {
-					if msg := w.doOp(run, r0, op, local); msg != "" {
+					if msg := twin.doOp(run, r0, op, local); msg != "" {
 						run.Inconclusive("sequential baseline disagrees with the table (harness or library error outside C19): " + msg)
 						return
 					}
@@ -300,7 +322,7 @@ func c19Core(run *mon.Run) {
 			}
 			wg.Wait()
 			var after string
-			if !run.Guard("fingerprint-after-storm", map[string]any{"goroutines": G}, func() { after = w.fingerprint() }) && after != before {
+			if !run.Guard("fingerprint-after-storm", map[string]any{"goroutines": G}, func() { after = w.fingerprint(true) }) && after != before {
 				run.Violate("C19:arguments-modified", "an argument buffer, key encoding or shared hasher state changed during the storm", map[string]any{"goroutines": G})
 			}
 			run.Shape(fmt.Sprintf("storm|G%d|rep%d", G, rep))
